@@ -410,7 +410,23 @@ func c15StreamAnnotation(t *fw.T, shard, nshards int, emit func(*fw.Case)) {
 		}
 		emit(&fw.Case{Meta: map[string]string{"text": s, "host": c15AnnHosts[n%len(c15AnnHosts)]}, Docs: []run.Doc{{}}})
 	})
+	// multi-line texts, which only the /* */ spelling can hold: every kind of line end is whitespace to be collapsed;
+	// the // twin carries the collapsed text
+	enumerate(c15AnnBlockSymbols, t.Pick(5, 6), func(s string) {
+		n++
+		if n%nshards != shard {
+			emit(nil)
+			return
+		}
+		if !strings.ContainsAny(s, "\n\r") {
+			emit(nil)
+			return
+		}
+		emit(&fw.Case{Meta: map[string]string{"text": s, "host": c15AnnHosts[n%len(c15AnnHosts)], "mode": "block"}, Docs: []run.Doc{{}}})
+	})
 }
+
+var c15AnnBlockSymbols = []string{"a", "b", " ", "\t", "\n", "\r", "\r\n"}
 
 func c15AnnDoc(host, ann string) string {
 	switch host {
@@ -471,7 +487,8 @@ func collapseWS(s string) string { return strings.Join(strings.Fields(s), " ") }
 func c15EvalAnnotation(t *fw.T, c *fw.Case) {
 	src, host := c.Meta["text"], c.Meta["host"]
 	// the text must not end the /* */ form early, start a comment, or be blank
-	if strings.Contains(src, "*/") || strings.ContainsAny(src, "#\n\r") {
+	blockMode := c.Meta["mode"] == "block"
+	if strings.Contains(src, "*/") || strings.ContainsAny(src, "#") || !blockMode && strings.ContainsAny(src, "\n\r") {
 		return
 	}
 	want := collapseWS(src)
@@ -480,6 +497,10 @@ func c15EvalAnnotation(t *fw.T, c *fw.Case) {
 	}
 	t.Count("annotations_checked")
 	line := c15AnnDoc(host, "// "+src)
+	if blockMode {
+		t.Count("multiline_annotations_checked")
+		line = c15AnnDoc(host, "// "+want)
+	}
 	block := c15AnnDoc(host, "/* "+src+" */")
 	c.Docs = []run.Doc{run.Single([]byte(line)), run.Single([]byte(block))}
 	ol := t.Exec(c.Docs[0])
